@@ -600,11 +600,12 @@ spifconf_shell_expand(spif_charptr_t s)
                             break;
                       }
                   }
-                  *(--tmp1) = 0;
                   if (l) {
                       libast_print_error("parse error in file %s, line %lu:  Mismatched parentheses\n", file_peek_path(), file_peek_line());
+                      FREE(Command);
                       return (spif_charptr_t) NULL;
                   }
+                  *(--tmp1) = 0;
                   Command = spifconf_shell_expand(Command);
                   Output = (spif_charptr_t) (builtins[k].ptr) (Command);
                   FREE(Command);
